@@ -58,6 +58,20 @@ pub struct Config {
     /// 3 scattered between the data lines (metadata is metadata wherever it is written); bit 2: a comment line first
     #[serde(default)]
     pub meta_layout: u8,
+    /// metadata written in the legacy spelling (`#CTE_Area_ref:`, `#CTE_kexp:`, `#CTE_Localizacion:`): bits area 1, k_exp 2, location 4
+    #[serde(default)]
+    pub legacy: u8,
+    /// metadata line written twice with the same value (the second time in the other spelling where one exists):
+    /// bits area 1, k_exp 2, location 4, RED1 8, RED2 16
+    #[serde(default)]
+    pub dup: u8,
+    /// number of -v flags (diagnostics must not change what is computed or recorded)
+    #[serde(default)]
+    pub verbosity: u8,
+    /// 0 a building; 1 no components file at all; 2 a file with metadata only; 3 a file with metadata and DEMANDA lines
+    /// only (nothing can be computed, but bad values are still refused and good ones echoed with their origin)
+    #[serde(default)]
+    pub shape: u8,
 }
 
 fn pick_area(r: &mut Rng, for_option: bool) -> Given {
@@ -81,9 +95,9 @@ fn pick_red(r: &mut Rng, for_option: bool) -> Given {
     match r.below(6) {
         0..=1 => {
             if for_option {
-                Given::Valid(r.pick(&["0.5 0.6 0.1", "1 0 0", "0.25 1.75 0.4", "0 2.5 0.5"]).to_string())
+                Given::Valid(r.pick(&["0.5 0.6 0.1", "1 0 0", "0.25 1.75 0.4", "0 2.5 0.5", "0 1.3 0.3", "0.0 1.30 0.300"]).to_string())
             } else {
-                Given::Valid(r.pick(&["0.5, 0.6, 0.1", "(1, 0, 0)", "{ ren: 0.25, nren: 1.75, co2: 0.4 }", "0,2.5,0.5", "0.500, 0.600, 0.100"]).to_string())
+                Given::Valid(r.pick(&["0.5, 0.6, 0.1", "(1, 0, 0)", "{ ren: 0.25, nren: 1.75, co2: 0.4 }", "0,2.5,0.5", "0.500, 0.600, 0.100", "0, 1.3, 0.3", "{ ren: 0, nren: 1.3, co2: 0.3 }"]).to_string())
             }
         }
         2 => {
@@ -111,6 +125,23 @@ fn near(r: &mut Rng, v: &str, lo: f64, hi: f64) -> Option<String> {
 
 pub fn gen_config(r: &mut Rng) -> Config {
     let mut c = gen_config_base(r);
+    if c.ffile == Some(true) && r.chance(1, 3) {
+        // the file has its own RED1 line and the metadata give RED1 the value that is also the built-in default: it is
+        // still a user value and beats the file
+        c.red1_meta = Given::Valid(r.pick(&["0, 1.3, 0.3", "0.0, 1.3, 0.3", "{ ren: 0, nren: 1.3, co2: 0.3 }"]).to_string());
+    }
+    if r.chance(1, 12) {
+        c.shape = 1 + r.below(3) as u8;
+        if c.shape == 1 {
+            // no components file: no metadata either; the option parser wants a factor source
+            if c.loc_opt.is_none() && c.ffile.is_none() {
+                c.loc_opt = Some(r.pick(&LOCS).to_string());
+            }
+            for m in [&mut c.area_meta, &mut c.kexp_meta, &mut c.loc_meta, &mut c.red1_meta, &mut c.red2_meta] {
+                *m = Given::Absent;
+            }
+        }
+    }
     // option and metadata both valid: often make them close but different (a tie-break by distance must not happen)
     if let (Given::Valid(o), Given::Valid(_)) = (&c.kexp_opt, &c.kexp_meta) {
         if r.chance(1, 2) {
@@ -164,6 +195,10 @@ fn gen_config_base(r: &mut Rng) -> Config {
         red2_meta: pick_red(r, false),
         load_matching: r.chance(1, 4),
         meta_layout: if r.chance(1, 2) { 0 } else { r.below(8) as u8 },
+        legacy: if r.chance(1, 4) { r.below(8) as u8 } else { 0 },
+        dup: if r.chance(1, 4) { r.below(32) as u8 } else { 0 },
+        verbosity: if r.chance(1, 3) { 1 + r.below(3) as u8 } else { 0 },
+        shape: 0,
     }
 }
 
@@ -279,12 +314,22 @@ pub fn expected(c: &Config) -> Expected {
 
 fn components_text(c: &Config) -> String {
     let mut meta = vec![];
-    for (key, g) in [("CTE_AREAREF", &c.area_meta), ("CTE_KEXP", &c.kexp_meta), ("CTE_LOCALIZACION", &c.loc_meta), ("CTE_RED1", &c.red1_meta), ("CTE_RED2", &c.red2_meta)] {
+    for (i, (key, old, g)) in [("CTE_AREAREF", "Area_ref", &c.area_meta), ("CTE_KEXP", "kexp", &c.kexp_meta), ("CTE_LOCALIZACION", "Localizacion", &c.loc_meta), ("CTE_RED1", "", &c.red1_meta), ("CTE_RED2", "", &c.red2_meta)].into_iter().enumerate() {
         if let Some(t) = g.text() {
-            meta.push(format!("#META {key}: {t}"));
+            let new_form = format!("#META {key}: {t}");
+            let old_form = if old.is_empty() { new_form.clone() } else { format!("#CTE_{old}: {t}") };
+            let legacy = c.legacy & (1 << i) != 0;
+            meta.push(if legacy { old_form.clone() } else { new_form.clone() });
+            if c.dup & (1 << i) != 0 {
+                meta.push(if legacy { new_form } else { old_form });
+            }
         }
     }
-    let data: Vec<&str> = BASE.lines().collect();
+    let data: Vec<&str> = match c.shape {
+        0 => BASE.lines().collect(),
+        3 => vec!["DEMANDA, ACS, 10, 20", "DEMANDA, CAL, 30, 5"],
+        _ => vec!["# sin componentes"],
+    };
     let mut out: Vec<String> = vec![];
     if c.meta_layout & 4 != 0 {
         out.push("# edificio de prueba".to_string());
@@ -321,7 +366,15 @@ fn components_text(c: &Config) -> String {
 }
 
 fn argv(c: &Config) -> Vec<String> {
-    let mut a: Vec<String> = vec!["-c".into(), "{C}".into()];
+    let mut a: Vec<String> = vec![];
+    match c.verbosity {
+        0 => {}
+        2 => a.push("-vv".into()),
+        n => (0..n).for_each(|_| a.push("-v".into())),
+    }
+    if c.shape != 1 {
+        a.extend(["-c".to_string(), "{C}".to_string()]);
+    }
     if let Some(t) = c.area_opt.text() {
         a.push(format!("--arearef={t}"));
     }
@@ -354,11 +407,13 @@ fn argv(c: &Config) -> Vec<String> {
 fn echo<'a>(stdout: &'a str, prefix: &str) -> Option<(&'a str, &'a str)> {
     // "<prefix> (<origin>)<rest>: <value>"
     for l in stdout.lines() {
+        // diagnostics (-vv) print other lines that begin alike ("Factores de paso de usuario:"): only a line of the
+        // documented shape is the echo
         if let Some(rest) = l.strip_prefix(prefix) {
             let rest = rest.trim_start();
-            let rest = rest.strip_prefix('(')?;
-            let (origin, tail) = rest.split_once(')')?;
-            let (_, value) = tail.split_once(": ")?;
+            let Some(rest) = rest.strip_prefix('(') else { continue };
+            let Some((origin, tail)) = rest.split_once(')') else { continue };
+            let Some((_, value)) = tail.split_once(": ") else { continue };
             return Some((origin, value.trim()));
         }
     }
@@ -455,7 +510,18 @@ pub fn check_config(ctx: &Ctx, c: &Config, t: &mut Tally) {
                     if let Out::Ok(want) = safe::guard(|| fac.build()) {
                         for cr in ["ELECTRICIDAD", "RED1", "RED2", "GASNATURAL"] {
                             let carrier: cteepbd::types::Carrier = cr.parse().unwrap();
-                            let w = want.wdata.iter().find(|f| f.carrier == carrier && f.source == cteepbd::types::Source::RED && f.dest == cteepbd::types::Dest::SUMINISTRO).map(|f| [f.ren as f64, f.nren as f64, f.co2 as f64]);
+                            let mut w = want.wdata.iter().find(|f| f.carrier == carrier && f.source == cteepbd::types::Source::RED && f.dest == cteepbd::types::Dest::SUMINISTRO).map(|f| [f.ren as f64, f.nren as f64, f.co2 as f64]);
+                            // RED1 / RED2: straight from the decision table (user value > file value > built-in default), not
+                            // from the library's own preparation of the set
+                            if cr == "RED1" || cr == "RED2" {
+                                let user = if cr == "RED1" { &exp.red1 } else { &exp.red2 };
+                                let file_value = if cr == "RED1" && c.ffile == Some(true) { Some([0.7, 0.2, 0.05]) } else { None };
+                                w = Some(match (user, file_value) {
+                                    (Some((v, _)), _) => [v[0] as f64, v[1] as f64, v[2] as f64],
+                                    (None, Some(f)) => f,
+                                    (None, None) => [0.0, 1.3, 0.3],
+                                });
+                            }
                             let g = find(cr);
                             let same = match (w, g) {
                                 (Some(w), Some(g)) => (0..3).all(|i| close(g[i], w[i], 1e-6)),
@@ -495,6 +561,13 @@ pub fn check_config(ctx: &Ctx, c: &Config, t: &mut Tally) {
                     }
                 }
             }
+            None if c.shape != 0 => {
+                // nothing to compute: the parameters were still validated and echoed (checked above), no result may appear
+                if has_report {
+                    t.violation("C19.result_without_components", "a result is printed although no energy component was given".into(), || wit(json!({})));
+                }
+                t.count("runs_without_components_checked");
+            }
             None => t.violation("C19.json_missing", "exit 0 but no readable --json document".into(), || wit(json!({}))),
         }
         // --oc: the effective values are recorded in the metadata
@@ -523,6 +596,7 @@ pub fn check_config(ctx: &Ctx, c: &Config, t: &mut Tally) {
                 }
                 t.count("saved_metadata_checked");
             }
+            Err(_) if c.shape != 0 => {}
             Err(_) => t.violation("C19.oc_missing", "exit 0 but the --oc file was not written".into(), || wit(json!({}))),
         }
         t.count("accepted_configurations_checked");
@@ -554,6 +628,7 @@ pub fn run(ctx: &Ctx) -> Report {
         ("results_recomputed".to_string(), tally.get("results_recomputed"), 150),
         ("distinct_origin_patterns".to_string(), patterns, 300),
         ("exit_64".to_string(), tally.get("exit_64"), 5),
+        ("runs_without_components_checked".to_string(), tally.get("runs_without_components_checked"), 5),
         ("origin.area.usuario".to_string(), tally.get("origin.area.usuario"), 20),
         ("origin.area.metadatos".to_string(), tally.get("origin.area.metadatos"), 20),
         ("origin.area.predefinido".to_string(), tally.get("origin.area.predefinido"), 20),
